@@ -74,6 +74,13 @@ template<typename B> tainted<int*, B> cb_ptr(rlbox_sandbox<B>& sb, tainted<int*,
   seen.called = true; seen.runs++; seen.sandbox = &sb; seen.p = reinterpret_cast<uintptr_t>(p.UNSAFE_unverified());
   return p;
 }
+// function-pointer parameter and result (the backend tells function pointers from data pointers by the type it is handed)
+using fnp_t = int (*)(int);
+template<typename B> tainted<fnp_t, B> cb_fnp(rlbox_sandbox<B>& sb, tainted<fnp_t, B> f)
+{
+  seen.called = true; seen.runs++; seen.sandbox = &sb; seen.p = reinterpret_cast<uintptr_t>(f.UNSAFE_unverified());
+  return f;
+}
 template<typename B> tainted<double, B> cb_dbl(rlbox_sandbox<B>& sb, tainted<double, B> d, tainted<float, B> f)
 {
   seen.called = true; seen.runs++; seen.sandbox = &sb; seen.d = d.UNSAFE_unverified(); seen.f = f.UNSAFE_unverified();
@@ -266,6 +273,7 @@ static void values(mon::Rng& rng)
     auto cd = sb.register_callback(cb_dbl<B>);
     auto cv = sb.register_callback(cb_void<B>);
     auto cu = sb.register_callback(cb_ull<B>);
+    auto cf = sb.register_callback(cb_fnp<B>);
     const char* bn = be::BT<B>::name();
     // guest long type (model) or host long
     using GL = std::conditional_t<foreign, MG<long>, long>;
@@ -358,6 +366,24 @@ static void values(mon::Rng& rng)
       if (!seen.called || seen.p != want || g_last_ret != back_want || seen.sandbox != &sb)
         report(bn, "pointer-argument-result", "not-faithful", mon::fmt("expected callback to see %p and guest to get back %llx; saw %p, got %llx", (void*)want, (unsigned long long)back_want, (void*)seen.p, (unsigned long long)g_last_ret));
       else n_value_ok++;
+      // function pointer: the guest passes its representation of an export (table index), of a callback slot, or null
+      if constexpr (foreign) {
+        const vsbx_library* L = be::BT<B>::libs[0];
+        int k = (i == 0) ? -1 : static_cast<int>(rng.below(L->order.size()));
+        uint64_t repr = k < 0 ? 0 : VS::EXPORT_TABLE_BASE + k;
+        uintptr_t wantf = k < 0 ? 0 : reinterpret_cast<uintptr_t>(L->exports.at(L->order[k]).internal_addr);
+        seen.reset();
+        mon::ctx("%s/values/function-pointer | i=%d export %d", bn, i, k);
+        g_arg_on = true; g_arg = repr;
+        bool abf = mon::aborts([&] { be::BT<B>::template invoke<fnp_t(fnp_t (*)(fnp_t), fnp_t)>(sb, "call_cb_p", cf, nullptr); });
+        g_arg_on = false;
+        mon::evals();
+        if (abf || !seen.called || seen.p != wantf || g_last_ret != repr || seen.sandbox != &sb)
+          report(bn, "function-pointer-argument-result", "not-faithful",
+                 mon::fmt("guest passed function-pointer representation %llu (export %d at %p): callback saw %p, guest got back %llu%s", (unsigned long long)repr, k, (void*)wantf, (void*)seen.p,
+                          (unsigned long long)g_last_ret, abf ? " (aborted)" : ""));
+        else n_value_ok++;
+      }
       // double / float
       double d; float f;
       uint64_t db = rng(); uint32_t fb = static_cast<uint32_t>(rng());
